@@ -240,6 +240,47 @@ std::string run_case(Src& s, CaseInfo& ci)
     }
   }
 
+  // the same claim through the command-line tool (cli/yara.c `-C`): a few cut points per file,
+  // with and without a `-d` definition on the command line; the tool must refuse the file with
+  // an error message and a non-zero exit status (cuts inside the relocation table are the listed
+  // known finding and are not sampled here)
+  if (const char* clidir = getenv("VERIF_CLI_DIR"))
+  {
+    std::vector<size_t> pick = {0, 3, 6 + (size_t) s.range(0, 143), table_end + (size_t) s.range(0, bodies_end - table_end - 1),
+                                bodies_end - 1};
+    char dpath[] = "/tmp/verif-c17-XXXXXX";
+    int dfd = mkstemp(dpath);
+    close(dfd);
+    std::string cli_failure;
+    for (size_t n : pick)
+    {
+      if (n >= bodies_end || n >= image.size())
+        continue;
+      FILE* f = fopen(dpath, "wb");
+      fwrite(image.data(), 1, n, f);
+      fclose(f);
+      for (int with_d = 0; with_d < 2 && cli_failure.empty(); with_d++)
+      {
+        std::string cmd = std::string("ASAN_OPTIONS=detect_leaks=0:exitcode=99 UBSAN_OPTIONS=exitcode=99:halt_on_error=1 ") + clidir + "/yara -C " +
+                          (with_d ? "-d xi=7 " : "") + dpath + " /dev/null >/dev/null 2>" + dpath + ".err";
+        int st = system(cmd.c_str());
+        ci.sub_evals++;
+        std::ifstream ef(std::string(dpath) + ".err");
+        std::stringstream es;
+        es << ef.rdbuf();
+        bool said_error = es.str().find_first_not_of(" \t\r\n") != std::string::npos;  // any diagnostic (print_error has no fixed prefix)
+        if (!WIFEXITED(st) || WEXITSTATUS(st) == 0 || WEXITSTATUS(st) >= 99 || !said_error)
+          cli_failure = strf("image of %zu bytes cut at byte %zu: `yara -C %s<file> /dev/null` ends with wait status 0x%x and stderr: %s",
+                             image.size(), n, with_d ? "-d xi=7 " : "", st, es.str().substr(0, 300).c_str());
+      }
+    }
+    unlink(dpath);
+    unlink((std::string(dpath) + ".err").c_str());
+    if (!cli_failure.empty())
+      return cli_failure;
+    ci.classes.push_back("yara -C on cut files");
+  }
+
   // enumerate, resuming behind every crashing point
   std::string outcomes;
   std::vector<size_t> crashed;
